@@ -54,6 +54,12 @@ Tpl ==
     TRefId |-> Typ(SRef("Id"), "", {}),
     THintCol |-> Typ(EnumCol, "Col", {}),
     TTitleCol |-> Typ(Titled(EnumCol, "Col"), "", {}),
+    (* definitions that convert to an unnamed type (array) or are a bare alias: rendered as
+       newtype wrappers; re-added by a coinciding name hint, by title and by reference *)
+    RL    |-> Ref(<< <<"L", SArr(SStr)>>, <<"Al", SRef("L")>> >>, {"L", "Al"}),
+    THintL |-> Typ(SObj(Props1("k", SStr), {"k"}), "L", {}),
+    THintAl |-> Typ(SObj(Props1("k", SStr), {"k"}), "Al", {}),
+    TTitleL |-> Typ(Titled(SArr(SStr), "L"), "", {}),
     ROOT  |-> Root(Titled(SObj(Props1("a", SRef("A")), {}), "Root"), [A |-> ObjA], {}) ]
 
 Names == DOMAIN Tpl
